@@ -90,6 +90,11 @@ add("C11", "fault_enumeration", "fault injection at every byte offset: clean cut
     "Trusted base: plan record offsets (ref/wire.go) and the reference interpreter for partial content.",
     "DESIGN.md §3 C11")
 
+add("C19", "exploration", "runtime monitor over executions of the real fitgen command on stock and variant workbooks: exit status, byte-identical repeated output, compile + execute the generated code and compare its tables with an independent reading of the workbook",
+    "The command built from the working tree is run four times per configuration (xlsx and SDK zip input) on the 5 bundled workbooks and on dependency-closed variants with PRNG subsets of rows disabled; outputs must be identical, declare the SDK version, compile with the library's support code, and a program linked against them must show exactly the struct fields and lookup entries the workbook's enabled rows prescribe. Sampled subsets.",
+    "Trusted base: harness/ref/xlsx.go (archive/zip + encoding/xml reader, not the spreadsheet library the generator uses) and the dependency closure computed from it.",
+    "DESIGN.md §3 C19")
+
 ALL = ["C%02d" % i for i in range(1, 21)]
 
 def main():
@@ -130,6 +135,8 @@ def main():
     for id in ALL:
         if id not in CHECKS:
             m["not_applicable"].append({"property_id": id, "reason": "check not built yet (work in progress; the technique applies, see DESIGN.md §3)"})
+    if not m["not_applicable"]:
+        del m["not_applicable"]
     json.dump(m, open(os.path.join(V, "MANIFEST.json"), "w"), indent=1)
     print("wrote MANIFEST.json with", len(m["checks"]), "checks")
 
